@@ -4,12 +4,14 @@
 -/
 import JV.Drv.MergePatch
 import JV.Drv.Pointer
+import JV.Drv.Patch
 open JV Drv
 
 def dispatch (line : String) : String :=
   match tokens line with
   | "mp" :: rest => mergePatchLine rest
   | "ptr" :: rest => pointerLine rest
+  | "patch" :: rest => patchLine rest
   | [] => ""
   | _ => "bad-op"
 
